@@ -215,6 +215,8 @@ class PathGen:
             return ["b", "TypeError"]
         if r < 0.19:
             return ["x", "StopIteration"]     # what an exhausted next() inside a predicate raises
+        if r < 0.23:
+            return ["trav"]                   # the predicate returns find(...) itself: an object, truthy even when empty
         return ["v", rng.choice(OUT_VALUES)]
 
     def gen_fns(self):
